@@ -1,6 +1,6 @@
 TITLE = "metrize bakes tempi into durations, once, and leaves neutral tempo behind"
 IMPORTS = ["From Coquelicot Require Import Coquelicot.", "From Coq Require Import ZArith List Bool Reals.",
-           "From MV Require Import Base.Res Model.EventTree Model.TreeOps Model.Num Model.Envelope Model.Convert Model.MetrizeSteps Proofs.RNum Proofs.Interp Proofs.Integral Proofs.ConvertCache Proofs.ConvertP Proofs.MetrizeStepsP Proofs.MetrizeStepsAdd.",
+           "From MV Require Import Base.Res Model.EventTree Model.TreeOps Model.Num Model.Envelope Model.Convert Model.MetrizeSteps Proofs.RNum Proofs.Interp Proofs.Integral Proofs.ConvertCache Proofs.ConvertP Proofs.MetrizeStepsP Proofs.MetrizeStepsAdd Proofs.MetrizeStepsInt.",
            "Import ListNotations."]
 ENTRIES = [
  ("C13_constant_tempi_multiply", "metrize_constant", "constant tempi multiply: a leaf of length d under tempi b1..bk on its path, its own included, lasts d * (60/b1) * ... * (60/bk)"),
@@ -17,6 +17,7 @@ ENTRIES = [
  ("C13_one_factor_per_level", "prod_at_cons", ""),
  ("C13_step_model_independent_of_subdivision", "integ_steps_additive", "the seconds of the beats [x, b) are those of [x, m) plus those of [m, b), whatever tempo changes of whatever level lie inside (with the fuel the model gives itself)"),
  ("C13_leaf_subdivision", "leaf_subdivision", "hence a leaf of d1 + d2 beats lasts what a leaf of d1 beats followed by a leaf of d2 beats lasts, under any stack of step trajectories"),
+ ("C13_step_model_is_the_integral_under_one_trajectory", "integ_steps_is_integrate", "the two models agree where both apply, not only by construction: under ONE step trajectory the step model's seconds of [x, b) are what `integrate` - the routine of the one-trajectory model, proved to be the Riemann integral of the curve - computes"),
  ("C13_curved_trajectories_outside_step_model", "metrize_steps_rejects_curves", "a curved trajectory below a trajectory stays undecided (model and property alike)"),
  ("C13_nested_steps_example", "nested_steps_example", "2 beats under 240 | 120 bpm (change after 1 beat) and 60 | 30 bpm (change after 1.5 beats) last 1 second"),
 ]
